@@ -126,9 +126,12 @@ impl StorageData for FileStorage {
 
     fn rename(&mut self, new_name: &str) -> Result<(), DbError> {
         std::fs::rename(&self.filename, new_name)?;
+        std::fs::rename(
+            WriteAheadLog::wal_filename(&self.filename),
+            WriteAheadLog::wal_filename(new_name),
+        )?;
         self.file = OpenOptions::new().read(true).write(true).open(new_name)?;
         self.wal = WriteAheadLog::new(new_name)?;
-        std::fs::remove_file(WriteAheadLog::wal_filename(&self.filename))?;
         self.filename = new_name.to_string();
         Ok(())
     }
